@@ -380,6 +380,24 @@ def r9(ctx):
             ctx.check(not direct, "transactional:%s:no-direct-write" % name, "no item write bypasses the transaction", bd.where(direct[0].idx) if direct else bd.where(line=bd.line), bad_detail="%s calls %s outside the transaction" % (name, short((direct[0].term.callee or "")) if direct else ""))
 
 
+def r9_attrs(ctx):
+    """Device attributes (group 0) selected by a READ: a single attribute is header + type + length + value, written by
+    HeaderWriter::write_attribute with one `?` per piece. It runs inside a roll-back scope (the closure handed to Selection::tx /
+    WriteCursor::transaction), never directly in Selection::write_all: when the buffer runs out - or the value cannot be encoded - in
+    the middle, the pieces already written would otherwise stay in the fragment that is transmitted (F18)."""
+    prog = ctx.prog
+    wa = prog.body("details::attrs::Selection::write_all")
+    direct = call_sites(wa, r"HeaderWriter::write_attribute$")
+    inside = []
+    for ch in prog.children(wa):
+        inside += call_sites(ch, r"HeaderWriter::write_attribute$")
+    txs = call_sites(wa, r"attrs::Selection::tx$|WriteCursor::transaction$")
+    ctx.check(not direct and bool(inside) and bool(txs), "transactional:Selection::write_all:attribute", "an attribute is written inside a roll-back scope", wa.where(direct[0].idx) if direct else wa.where(line=wa.line), bad_detail="Selection::write_all calls HeaderWriter::write_attribute directly on the response cursor: an attribute cut by the end of the buffer (or whose value cannot be encoded) leaves its first bytes in the transmitted fragment, which then does not parse")
+    tb = prog.body("details::attrs::Selection::tx")
+    sk = call_sites(tb, r"WriteCursor::seek_to$")
+    ctx.check(bool(sk) and all(any(g.kind == "bool" and g.truth is True and mentions_call(g.a, r"::is_err$") or (g.kind == "is" and g.name == "Err") for g in ctx.guards_at(tb, s_.idx)) for s_ in sk), "transactional:Selection::tx:rolls-back", "Selection::tx restores the start position when the closure fails", tb.where(line=tb.line))
+
+
 def r10(ctx):
     """'Each transmitted fragment ... parses cleanly' (back-patched range stops: C09.R10) and 'every solicited response carries the
     sequence number of the request it answers' (a request that differs only in its sequence number is a NEW request, answered with
@@ -408,6 +426,28 @@ def r11(ctx):
     sb = prog.body("outstation::deferred::DeferredRead::set")
     ws = [ctx.sym(sb).rvalue_expr(st.rv) for b, si, st in sb.assigns() if st.dest.is_local() and sb.local_name(st.dest.local) == "iin2"]
     ctx.check(any(mentions_constdef(w, r"Iin2::PARAMETER_ERROR$") or mentions_const(w, 4) for w in ws), "deferred-set:notes-rejection", "DeferredRead::set notes PARAMETER_ERROR for a header that cannot be read", sb.where(line=sb.line))
+    # ... and for a header that is readable but does not fit the pre-allocated list (documented: "Requesting more than this number
+    # will result in the PARAMETER_ERROR IIN bit being set"; the same READ from idle is answered with it) - F19
+    ss = ctx.sym(sb)
+    pushes = call_sites(sb, r"Vec<.*>::push$|vec::Vec::push$")
+    if len(pushes) != 1:
+        raise AnchorError("DeferredRead::set: push sites %d" % len(pushes))
+    cap = [g for g in ctx.guards_at(sb, pushes[0].idx) if g.kind == "rel" and g.op in ("Lt", "Le", "Ne") and (mentions_call(g.a, r"::capacity$") or mentions_call(g.b, r"::capacity$")) and g.edge]
+    ctx.check(len(cap) == 1, "deferred-set:capacity-test", "the header is stored only while the list has room", sb.where(pushes[0].idx))
+    for g in cap:
+        S = g.edge[0]
+        full = [t for t in sb.succs(S) if t != g.edge[1]]
+        noted = False
+        for t in full:
+            reg = sb.region_of_edge((S, t))
+            for b_ in reg:
+                blk = sb.blocks[b_]
+                for st in blk.stmts:
+                    if st.kind == "assign" and st.dest.is_local() and sb.local_name(st.dest.local) == "iin2" and (mentions_constdef(ss.rvalue_expr(st.rv), r"Iin2::PARAMETER_ERROR$") or mentions_const(ss.rvalue_expr(st.rv), 4)):
+                        noted = True
+                if blk.term.kind == "call" and re.search(r"bitor_assign$|::bitor$", blk.term.callee or "") and (mentions_constdef(ss.call_expr(blk.term), r"Iin2::PARAMETER_ERROR$") or mentions_const(ss.call_expr(blk.term), 4)):
+                    noted = True
+        ctx.check(noted, "deferred-set:overflow-noted", "a header beyond the capacity is reported with PARAMETER_ERROR", sb.where(S), bad_detail="DeferredRead::set drops a readable header that does not fit its list with a log message only: the deferred READ is answered with a clean IIN2 although part of it was not processed")
 
 RULES = [
     ("C12.R1", "T8/T11", "sequence/UNS/FIR/FIN/CON provenance of every response header", r1),
@@ -418,7 +458,7 @@ RULES = [
     ("C12.R6", "T1-link", "no WriteError unwrap on response-building paths", r6),
     ("C12.R7", "T4/T2-region", "no request is swallowed: confirm waits end on / answer every fragment that needs a reply", r7),
     ("C12.R8", "T8-namesake", "session parameters (transmit buffer sizes, limits) are plumbed from the like-named configuration field", r_plumb),
-    ("C12.R9", "T3", "item writers that can overflow the transmit buffer mid-object are transactional", r9),
+    ("C12.R9", "T3", "item writers that can overflow the transmit buffer mid-object are transactional", lambda ctx: (r9(ctx), r9_attrs(ctx))),
     ("C12.R10", "T3/T2", "fragments cut by a full buffer stay parseable (C09.R10); a repeat is recognised by sequence AND digest (C05.R2)", r10),
     ("C12.R11", "T7", "the IIN2 recorded when a READ is deferred is OR-ed with the IIN2 of its later selection", r11),
 ]
